@@ -23,7 +23,7 @@ PROP = dict(
           "tap tweak) and resolution blob the harness generated for that outpoint, "
           "a taproot witness type of the right generation, a preimage that opens "
           "the HTLC, and is identical (witness type, outpoint, CSV, CLTV, required "
-          "output, preimage, height hint, budget/deadline/exclusive group, sign "
+          "output, preimage, budget/deadline/exclusive group (the height hint is counted, not compared), sign "
           "descriptor, blob) to what the uninterrupted run handed over for that "
           "outpoint. One evaluation = one (scenario, crash index) run. Non-trivial "
           "= the crash lands inside a transition (the effect before it is neither "
